@@ -113,7 +113,7 @@ class Checker:
             for wrap in (0, 1):
                 self.dis[s, wrap] = Disassembler(self.snapshot, Cfg(s, wrap, Ins))
 
-    def check(self, code, addr, stats=None):
+    def check(self, code, addr, stats=None, operands_only=False):
         """Returns list of (table, detail)."""
         out = []
         snap = self.snapshot
@@ -131,7 +131,7 @@ class Checker:
                 stats.state(('decode', ref.text if ref.length < 2 else ref.text.split(' ')[0], ref.length, ref.undoc))
             # --- simulators against the reference: PC and T deltas, both outcomes
             sim_t = set()
-            for v in VARIANTS:
+            for v in (() if operands_only else VARIANTS):
                 st = _state(addr, v)
                 exp, res, diffs = self.eng.compare(st)
                 sim_t.update(self.eng.last_T.values())
@@ -177,7 +177,7 @@ class Checker:
                     out.append(('Disassembler', 'Opcodes={} wrap={}: {!r} expected {!r}'.format(
                         setting, wrap, ins.operation, e_text)))
                 # --- static timing table, for everything the disassembler emits as an instruction
-                if not ins.operation.startswith('DEF') and not (addr + e_len > 65536):
+                if not operands_only and not ins.operation.startswith('DEF') and not (addr + e_len > 65536):
                     try:
                         timing = self.z80.get_timing(ins)
                     except Exception as e:
@@ -229,6 +229,32 @@ def _shard(shard, nshards, tier):
                             tags={'table': table, 'b0': code[0], 'b1': code[1], 'b3': code[3], 'addr': addr}, order=i)
         if i % 997 == 0:
             stats.sample({'bytes': '%02X%02X%02X%02X' % code, 'address': addr})
+    # operand sweep: for every slot that has a byte operand, displacement or jump offset, ALL 256 values of
+    # that byte (mnemonic and operands of the two disassemblers must agree for every operand value)
+    seen = set()
+    sweep = []
+    for code in slots():
+        key = (code[0], code[1] if code[0] in (0xCB, 0xED, 0xDD, 0xFD) else None, code[3] if code[1] == 0xCB and code[0] in (0xDD, 0xFD) else None)
+        if key in seen:
+            continue
+        seen.add(key)
+        ref = z80ref.decode(list(code) + [0] * 4, 0)
+        if ref.length >= 2 and not (ref.length == 2 and code[0] in (0xCB, 0xED) or ref.undoc in ('prefix', 'ednop')):
+            first = 2 if code[0] in (0xED, 0xDD, 0xFD) else 1
+            for pos in range(first, ref.length):
+                if code[0] in (0xDD, 0xFD) and code[1] == 0xCB and pos == 3:
+                    continue
+                sweep.append((code, pos))
+    for j, (code, pos) in core.shard_iter(sweep, shard, nshards):
+        for v in range(256):
+            c = list(code)
+            c[pos] = v
+            res = chk.check(tuple(c), 0x8000, None, operands_only=True)
+            stats.evaluations += 1
+            stats.counters['operand_sweep'] += 1
+            for table, detail, hexb in res:
+                stats.violation('{}@32768:{}'.format(hexb, table), {'code': c, 'addr': 0x8000, 'operands_only': True}, '{}: {}'.format(table, detail),
+                                tags={'table': table, 'b0': c[0], 'b1': c[1], 'b3': c[3], 'addr': 0x8000, 'sweep': True}, order=10**6 + j * 256 + v)
     return stats
 
 
@@ -239,17 +265,17 @@ def run(tier, seed):
         rule='complete product: 1792 opcode table slots x 2 operand fillings x addresses {32768,0,65533,65534,65535}; each case '
              'checked against Disassembler (10 additional-opcode settings x wrap 0/1), traceutils.disassemble, opcodes.decode, '
              'z80.get_timing and one step of all 4 simulators under 7 register variants (both outcomes of every condition/repeat '
-             'test). states = distinct (mnemonic, length, undocumented-family) decode classes; non-trivial = prefixed or next to '
+             'test); plus, for every slot with operand bytes, all 256 values of each operand byte through the three decoders. states = distinct (mnemonic, length, undocumented-family) decode classes; non-trivial = prefixed or next to '
              'the 64K boundary',
         exhaustive=True,
         bound='full slot set (finite space), identical in quick and thorough tiers',
         assumptions=['reference decoder mc/refs/z80ref.py (algorithmic, from the Zilog manual) is the oracle for length, '
                      'mnemonic and machine-cycle timing', 'operand bytes limited to two fillings per slot (C02 sweeps operands)'],
-        required_guards=['len1', 'len2', 'len3', 'len4', 'undoc_prefix', 'undoc_xycb', 'undoc_ednop', 'crosses_64k'],
+        required_guards=['len1', 'len2', 'len3', 'len4', 'undoc_prefix', 'undoc_xycb', 'undoc_ednop', 'crosses_64k', 'operand_sweep'],
     )
     return stats, meta
 
 
 def replay(case):
     chk = Checker()
-    return ['{}: {}'.format(t, d) for t, d, _ in chk.check(tuple(case['code']), case['addr'])]
+    return ['{}: {}'.format(t, d) for t, d, _ in chk.check(tuple(case['code']), case['addr'], None, case.get('operands_only', False))]
